@@ -487,6 +487,80 @@ def zero_fill(W, ev, t):
     return None
 
 
+def byte_pieces(W, t, depth=0):
+    """Flatten a byte-string valued term into the sequence of pieces it is the concatenation of: `[a, b].concat()`, a Vec built by a
+    straight sequence of appends, views (`as_slice`, `&v[..]`).  Unknown shapes are returned as a single piece."""
+    t = values.strip_payload(t)
+    if depth > 4 or not isinstance(t, tuple) or not t:
+        return [t]
+    if is_call(t) and callee_name(t[1]) in values.VIEW_NAMES + ("to_vec", "to_owned", "clone", "into", "from") and t[2]:
+        return byte_pieces(W, t[2][0], depth + 1)
+    if t[0] == "index" and isinstance(t[2], tuple) and t[2][0] == "agg" and str(t[2][1]).endswith("RangeFull"):
+        return byte_pieces(W, t[1], depth + 1)
+    if is_call(t) and callee_name(t[1]) == "concat" and len(t[2]) == 1 and isinstance(t[2][0], tuple) and t[2][0][0] == "agg" and t[2][0][1] == "array":
+        out = []
+        for x in t[2][0][2]:
+            out.extend(byte_pieces(W, x, depth + 1))
+        return out
+    if t[0] == "obj":
+        seq = W.buffer_seq(t)
+        if seq is not None:
+            out = []
+            for i, x in enumerate(seq):
+                if i == 0 and is_call(x) and callee_name(x[1]) in ("new", "with_capacity"):
+                    continue
+                out.extend(byte_pieces(W, x, depth + 1))
+            return out
+    return [t]
+
+
+def digest_form(W, ev, t):
+    """Recognise `H(pieces)[..n]`: returns dict(alg=term, pieces=[terms], take=n or None) for
+    `Context::new(alg); update(p)*; finish()` and for the one-shot `digest::digest(alg, data)`, followed by `[0..n]`, `[..n]`, or
+    `.iter().copied().take(n).collect()`.  Else None."""
+    take = None
+    t = values.strip_payload(t)
+    for _ in range(8):
+        if is_call(t) and callee_name(t[1]) in values.VIEW_NAMES + ("to_vec", "to_owned", "collect", "copied", "cloned", "iter", "into_iter", "into", "from") and t[2]:
+            t = values.strip_payload(t[2][0])
+            continue
+        if is_call(t) and callee_name(t[1]) == "take" and len(t[2]) == 2 and t[2][1][0] == "int":
+            take = t[2][1][1] if take is None else min(take, t[2][1][1])
+            t = values.strip_payload(t[2][0])
+            continue
+        if isinstance(t, tuple) and t and t[0] == "index" and isinstance(t[2], tuple) and t[2][0] == "agg":
+            lab, ops = str(t[2][1]), t[2][2]
+            if lab.endswith("Range::Range") and ops[0] == ("int", 0) and ops[1][0] == "int":
+                take = ops[1][1]
+            elif lab.endswith("RangeTo::RangeTo") and ops[0][0] == "int":
+                take = ops[0][1]
+            elif lab.endswith("RangeFull"):
+                pass
+            else:
+                return None
+            t = values.strip_payload(t[1])
+            continue
+        break
+    if is_call(t) and callee_name(t[1]) == "digest" and "ring::digest" in t[1] and len(t[2]) == 2:
+        return {"alg": t[2][0], "pieces": byte_pieces(W, W.expand(t[2][1])), "take": take}
+    if is_call(t) and callee_name(t[1]) == "finish" and t[2] and isinstance(t[2][0], tuple) and t[2][0][0] == "obj":
+        cobj = t[2][0]
+        init = W.obj_init(cobj)
+        if not is_call(init, "Context::new"):
+            return None
+        e2 = W.ev(cobj[1])
+        fn2 = e2.fn
+        order = {b: i for i, b in enumerate(fn2.rpo())}
+        ups = sorted((order[b], b) for (b, callee, argi, ap) in W.obj_events(cobj) if callee_name(callee) == "update" and argi == 0)
+        if any(fn2.in_loop(b) for _, b in ups) or any(not fn2.dominates(ups[i][1], ups[i + 1][1]) for i in range(len(ups) - 1)):
+            return None
+        pieces = []
+        for _, b in ups:
+            pieces.extend(byte_pieces(W, e2.call_args(b)[1]))
+        return {"alg": init[2][0], "pieces": pieces, "take": take}
+    return None
+
+
 def value_holders(fn, call_bb):
     """Locals that (may) hold the value returned by the call in block call_bb, or a part of it: the destination, the results of
     unwrap/expect/`?` applied to it, and locals it is moved into (also out of an enum payload)."""
@@ -514,6 +588,50 @@ def value_holders(fn, call_bb):
 def normal_drops(fn, holders):
     """Blocks (not on unwind paths) whose terminator drops one of the locals as a whole."""
     return [bl.idx for bl in fn.blocks if bl.term["k"] == "drop" and not bl.cleanup and not bl.term["place"].get("p") and bl.term["place"]["l"] in holders]
+
+
+def le_u32_source(W, t):
+    """If `t` decodes a little-endian u32 from a byte slice, return that slice term: byteorder `cursor.read_u32::<LE>()` on
+    Cursor::new(s), `LittleEndian::read_u32(s)`, `u32::from_le_bytes(s.try_into())` (also through a copied [u8; 4])."""
+    t = uncast(values.strip_payload(W.expand(t)))
+    for _ in range(4):
+        if not is_call(t):
+            return None
+        nm = callee_name(t[1])
+        if nm == "from_le_bytes" and t[2]:
+            src = values.strip_payload(W.expand(t[2][0]))
+            if isinstance(src, tuple) and src and src[0] == "obj":
+                seq = W.buffer_seq(src)
+                ev = W.ev(src[1])
+                cp = [ev.call_args(b)[1] for (b, callee, argi, ap) in ev.events_on(src[2]) if callee_name(callee) in ("copy_from_slice", "clone_from_slice") and argi == 0]
+                if len(cp) == 1:
+                    return values.strip_payload(W.expand(cp[0]))
+                return None
+            return src
+        if nm == "read_u32" and t[2]:
+            if not any("LittleEndian" in str(x) or "LE" == str(x).split("::")[-1] for x in ([t[1]] + list(_substs_of(W, t)))):
+                return None
+            src = values.strip_payload(W.expand(t[2][-1] if "ByteOrder" in t[1] else t[2][0]))
+            while isinstance(src, tuple) and src and src[0] == "reader":
+                src = src[1]
+            if isinstance(src, tuple) and src and src[0] == "obj":
+                init = W.obj_init(src)
+                if is_call(init, "Cursor::new"):
+                    return values.strip_payload(W.expand(init[2][0]))
+                return None
+            if is_call(src, "Cursor::new"):
+                return values.strip_payload(W.expand(src[2][0]))
+            return src
+        return None
+    return None
+
+
+def _substs_of(W, t):
+    if len(t) > 3 and t[3]:
+        fn = W.prog.fns.get(t[3][0])
+        if fn is not None:
+            return fn.blocks[t[3][1]].term["fn"].get("substs", []) + [fn.blocks[t[3][1]].term["fn"].get("self_ty") or ""]
+    return []
 
 
 def uncast(t):
@@ -697,6 +815,17 @@ def arith_eval(t, env):
         raise NotArith("call " + t[1])
     if k == "vfield":
         return arith_eval(t[1], env)
+    if k == "len" and isinstance(t[1], tuple) and t[1] and t[1][0] == "index" and isinstance(t[1][2], tuple) and t[1][2][0] == "agg":
+        # length of a sub-slice in terms of the length of the whole
+        lab = str(t[1][2][1])
+        ops = [arith_eval(o, env) for o in t[1][2][2]]
+        if lab.endswith("RangeTo::RangeTo"):
+            return ops[0]
+        if lab.endswith("Range::Range"):
+            return ops[1] - ops[0]
+        if lab.endswith("RangeFrom::RangeFrom"):
+            return arith_eval(("len", t[1][1]), env) - ops[0]
+        raise NotArith("len of " + lab)
     if k == "phi":
         vs = {arith_eval(a, env) for a in t[1]}
         if len(vs) == 1:
@@ -709,6 +838,19 @@ def arith_eval(t, env):
 def rel_holds(rel, env):
     """Truth of a relational fact under env, or None if it mentions anything outside env / non-arithmetic."""
     op, a, b = rel
+    if op in ("True", "False") and is_call(a) and callee_name(a[1]) == "contains" and len(a[2]) == 2 and isinstance(a[2][0], tuple):
+        # (lo..hi).contains(&x) / (lo..=hi).contains(&x)
+        rng = a[2][0]
+        while isinstance(rng, tuple) and rng and rng[0] == "reader":
+            rng = rng[1]
+        if rng[0] == "agg" and "Range" in str(rng[1]) and len(rng[2]) >= 2:
+            try:
+                lo, hi, x = arith_eval(rng[2][0], env), arith_eval(rng[2][1], env), arith_eval(a[2][1], env)
+            except NotArith:
+                return None
+            inside = lo <= x <= hi if "Inclusive" in str(rng[1]) else lo <= x < hi
+            return inside if op == "True" else not inside
+        return None
     if op not in ("Lt", "Le", "Eq", "Ne"):
         return None
     try:
